@@ -147,6 +147,16 @@ theorem len_le_max_op (tl : TL) (op : Op) (hmax : tl.maxTracks ≠ 0) (hlen : tl
         by_cases h : tl.maxTracks ≤ tl.tracks.length
         · exact absurd ⟨hmax, h⟩ hc
         · omega
+  | scheduleAt idx sid qz dl count rwd =>
+    simp only [applyOp]
+    split
+    · exact ⟨hlen, rfl⟩
+    · rename_i hc
+      simp only [List.length_append, List.length_cons, List.length_take, List.length_drop]
+      refine ⟨?_, trivial⟩
+      by_cases h : tl.maxTracks ≤ tl.tracks.length
+      · exact absurd ⟨hmax, h⟩ hc
+      · omega
   | update tid sid qz dl count =>
     simp only [applyOp]; split <;> simp [TL.updateTrack, TL.setTrack, length_setFirst, hlen]
   | unschedule tid =>
